@@ -2,7 +2,7 @@
 Decided: raw pointers derived under a MutexGuard never outlive it (escape
 analysis); RawList is reached only through its mutex; unsafe Send/Sync on
 RawList."""
-from .. import mir, locks
+from .. import mir, locks, hir
 from ..facts import relfile
 from ..report import RuleResult
 
@@ -320,6 +320,80 @@ def rule_m4(F):
     return r
 
 
+STORAGE_WRITES = {"write", "swap", "copy", "copy_nonoverlapping", "swap_nonoverlapping", "drop_in_place", "write_bytes", "replace", "realloc", "dealloc", "alloc", "write_unaligned", "copy_to", "copy_from", "copy_to_nonoverlapping", "copy_from_nonoverlapping"}
+
+
+def rule_m5(F, rule_id="C16.M5"):
+    """Linearizability of the list rests on EXCLUSIVE access for everything that writes the storage.  `RawList` writes through a raw
+    pointer, so the borrow checker does not enforce this (RawList::swap takes `&self`); the lock does.  A Mutex guard is exclusive
+    whatever is called through it; a reader-writer lock is only sound if no storage-writing method is reachable through a shared
+    (read) guard."""
+    r = RuleResult(rule_id, "every RawList method that writes the storage is called with exclusive access (mutex guard, write guard or an unshared list), never through a shared read guard", floor=1)
+    raw = [b for b in F.all_bodies() if b.mir and "{closure" not in b.path and (b.path.startswith("value::list::RawList::") or "<value::list::RawList as" in b.path)]
+    if not raw:
+        r.missing("methods of value::list::RawList")
+        return r
+    writers = set()
+    direct = {}
+    for b in raw:
+        w = []
+        for _, t in mir.calls(b):
+            full = mir.callee(t) or mir.callee_def(t) or ""
+            nm = full.rsplit("::", 1)[-1]
+            if nm in STORAGE_WRITES and ("ptr" in full or "alloc" in full or "intrinsics" in full or "NonNull" in full or "mem::" in full):
+                w.append(nm)
+        direct[b.path] = w
+        # `&mut self` methods need no rule: no shared guard can hand out `&mut RawList`.  The risk is in `&self` methods that write
+        # through the raw pointer.
+        recv_ty = str((b.mir["locals"][1] if b.mir["argc"] >= 1 else {}).get("ty") or "")
+        if w and not recv_ty.startswith("&mut "):
+            writers.add(b.path)
+    changed = True
+    while changed:
+        changed = False
+        for b in raw:
+            if b.path in writers:
+                continue
+            if any((mir.callee(t) in writers or mir.callee_def(t) in writers) for _, t in mir.calls(b)):
+                writers.add(b.path)
+                changed = True
+    for b in F.all_bodies():
+        if not b.mir or b.path in {x.path for x in raw}:
+            continue
+        defs = None
+        for bi, t in mir.calls(b):
+            cal = mir.callee(t) if mir.callee(t) in writers else mir.callee_def(t) if mir.callee_def(t) in writers else None
+            if cal is None or not t.get("args"):
+                continue
+            defs = defs or mir.Defs(b)
+            a0 = t["args"][0]
+            guard_tys = set()
+            if mir.is_place_op(a0):
+                seen, work = set(), [a0[1][0]]
+                while work:
+                    l = work.pop()
+                    if l in seen:
+                        continue
+                    seen.add(l)
+                    ty = str(b.mir["locals"][l].get("ty") or "")
+                    for g in ("RwLockReadGuard", "RwLockWriteGuard", "MutexGuard", "MappedRwLockReadGuard"):
+                        if g in ty:
+                            guard_tys.add(g)
+                    for d in defs.defs.get(l, []):
+                        if d[2] == "call":
+                            for a in d[3].get("args") or []:
+                                if mir.is_place_op(a):
+                                    work.append(a[1][0])
+                        elif d[2] == "assign":
+                            work.extend(mir.rv_locals(d[3]["rv"]))
+            r.inst("%s -> %s" % (b.path, hir.last(cal)), {"caller": b.path, "writer": cal, "writes": direct.get(cal, [])[:3], "receiver_guards": sorted(guard_tys)})
+            if guard_tys & {"RwLockReadGuard", "MappedRwLockReadGuard"}:
+                r.bad(b.path, "storage writer %s through a read guard" % hir.last(cal), relfile(b.file), t.get("line") or b.line,
+                      "%s calls RawList::%s, which writes the list's storage (%s), through a shared read guard: two threads can run it at the same time as each other and as readers "
+                      "(half-swapped elements, duplicated and lost elements, double drops) - operations are no longer linearizable" % (hir.last(b.path), hir.last(cal), ", ".join(direct.get(cal, [])[:2]) or "via another method"))
+    return r
+
+
 def rules(ctx):
     F = ctx["F"]
     bodies = [b for b in F.all_bodies() if b.mir]
@@ -329,7 +403,7 @@ def rules(ctx):
     rule_m2(F, m2)
     m3 = RuleResult("C16.M3", "RawList's unsafe Send/Sync covers only the owned buffer pointer; ErasedList = Arc<Mutex<RawList>>", floor=5)
     rule_m3(F, m3)
-    return [m1, m2, m3, rule_m4(F)]
+    return [m1, m2, m3, rule_m4(F), rule_m5(F)]
 
 
 def canary(C):
